@@ -115,6 +115,60 @@ def dsge_ops(h: Harness, rng):
                         "dSGE child has a gene list that is neither parent's list for that key", [s1, s2, draws])
 
 
+def dsge_histories(h: Harness, rng):
+    """dynamic SGE over a search-like history: genotypes are created and MAPPED (mapping extends the gene lists on
+    demand, in place), parents with different key sets are crossed, the children are mapped and then mutated
+    repeatedly.  Every crossover and every mutation of the history is judged on snapshots taken around it."""
+    from geneticengine.random.sources import NativeRandomSource
+    for _ in range(h.n(25, 300)):
+        spec = gram.productive_spec(rng, max_classes=rng.choice([4, 5, 6]), opts={"float": rng.random() < 0.5, "str": False})
+        b = gram.build(spec)
+        try:
+            g = b.extract()
+        except Exception:  # noqa: BLE001
+            continue
+        mind = g.get_min_tree_depth()
+        if mind >= 1000000:
+            continue
+        rep = DSGE(g, mind + rng.choice([1, 2, 3]))
+        shared = NativeRandomSource(rng.randrange(10**6))
+        pool = []
+        for _ in range(6):
+            st, geno = safe(lambda: rep.create_genotype(shared))
+            if st == "ok" and safe(lambda: rep.genotype_to_phenotype(geno))[0] == "ok":
+                pool.append(geno)
+        if len(pool) < 2:
+            continue
+        h.count("dsge-histories")
+        for step in range(h.n(6, 12)):
+            p1, p2 = rng.sample(pool, 2)
+            s1, s2 = linear.dsge_sx(p1.dna, b), linear.dsge_sx(p2.dna, b)
+            st, cs = safe(lambda: rep.crossover(shared, p1, p2))
+            if st != "ok":
+                break
+            for c in cs:
+                h.holds("DynamicSGE.crossover", "gene-not-from-parents-at-locus", ["prop_dsge_locus", s1, s2, linear.dsge_sx(c.dna, b)],
+                        "dSGE child (parents that had been mapped) has a gene list that is neither parent's list for that key", [s1, s2, step])
+                if safe(lambda: rep.genotype_to_phenotype(c))[0] != "ok":
+                    continue
+                cur = c
+                for k in range(3):
+                    before = linear.dsge_sx(cur.dna, b)
+                    st, m = safe(lambda: rep.mutate(shared, cur))
+                    if st != "ok":
+                        break
+                    h.count("dsge-histories:mutations-of-mapped-children")
+                    h.holds("DynamicSGE.mutate", "mutation-not-local", ["prop_dsge_mutate_one", before, linear.dsge_sx(m.dna, b)],
+                            f"mutation #{k + 1} of a crossover child that had been mapped changed more than one gene or the shape: "
+                            f"{sx(before)[:120]} -> {sx(linear.dsge_sx(m.dna, b))[:120]}", [sx(gram.spec_sx(spec)), before, step, k])
+                    if linear.dsge_sx(cur.dna, b) != before:
+                        h.fail("DynamicSGE.mutate", "parent-changed", "mutation changed its input genotype", [sx(gram.spec_sx(spec)), before])
+                    safe(lambda: rep.genotype_to_phenotype(m))
+                    cur = m
+                pool.append(cur)
+            pool = pool[-8:]
+
+
 def tree_crossover(h: Harness, rng):
     for _ in range(h.n(60, 900)):
         spec = gram.productive_spec(rng, max_classes=rng.choice([3, 4, 6]), opts={"float": False})
@@ -207,4 +261,5 @@ def run(h: Harness):
     linear_ops(h, h.rng)
     structured_ops(h, h.rng)
     dsge_ops(h, h.rng)
+    dsge_histories(h, h.rng)
     tree_crossover(h, h.rng)
